@@ -186,6 +186,8 @@ class Pipeline:
                     continue
                 if cn == f"{self.arr}.astype" or (isinstance(v, ast.Call) and isinstance(v.func, ast.Attribute) and v.func.attr == "astype"):
                     continue  # dtype promotion of the working array
+                if cn in ("np.asarray", "np.asanyarray") and v.args and unparse(v.args[0]) == self.arr and self.rebind is None:
+                    continue  # a view of the caller's data: nothing is written until the working array exists (checked for every in-place step)
                 self.problems.append((st, f"`{unparse(st)[:60]}` rebinds the array instead of acting in place"))
                 continue
             if isinstance(st, ast.Assign) and isinstance(st.targets[0], ast.Tuple):
@@ -201,6 +203,8 @@ class Pipeline:
                         self.problems.append((st, f"`{unparse(c)[:50]}` has no out=: its result is discarded"))
                     elif unparse(out) != self.arr:
                         self.problems.append((st, f"`{unparse(c)[:50]}` writes to `{unparse(out)}`"))
+                    elif self.rebind is None:
+                        self.problems.append((st, f"`{unparse(c)[:50]}` writes into the caller's array: no working copy has been made yet"))
                     operand = c.args[1] if len(c.args) > 1 else None
                     if cn == "np.clip":
                         operand = ast.Tuple(elts=list(c.args[1:3]), ctx=ast.Load())
@@ -302,6 +306,19 @@ def run(check, repo: Repo) -> None:
     check.decide(not bp.problems and bp.rebind is not None and bp.final_return_ok, "C20-R1",
                  "BaseInterval.__call__: works on a fresh array (values − vmin) in place and returns it", "", mod.line(bcall),
                  fail_detail="; ".join(m for _, m in bp.problems))
+    # integer input: the affine map runs in floating point.  `np.subtract(uint8 array, python int)` stays uint8 (NEP 50) and wraps around below vmin
+    arith = [n for n in ast.walk(bcall) if isinstance(n, ast.Call) and (call_name(n) or "") in ("np.subtract", "np.true_divide", "np.divide", "np.multiply", "np.add")
+             and n.args and isinstance(n.args[0], ast.Name) and n.args[0].id == bp.arr] + \
+            [n for n in ast.walk(bcall) if isinstance(n, ast.BinOp) and isinstance(n.op, (ast.Sub, ast.Div, ast.Mult, ast.Add)) and isinstance(n.left, ast.Name) and n.left.id == bp.arr]
+    casts = [n for n in ast.walk(bcall) if isinstance(n, ast.Call) and ((isinstance(n.func, ast.Attribute) and n.func.attr == "astype") or (call_name(n) or "") in ("np.asarray", "np.array", "np.asfarray"))
+             and any("float" in unparse(a) for a in list(n.args) + [k.value for k in n.keywords])]
+    if not arith:
+        raise AnalysisError("BaseInterval.__call__: arithmetic on the value array not found")
+    first = min(arith, key=lambda n: (n.lineno, n.col_offset))
+    ok = any((c.lineno, c.col_offset) < (first.lineno, first.col_offset) for c in casts)
+    check.decide(ok, "C20-R1", "BaseInterval.__call__: integer data is converted to floating point BEFORE the first arithmetic step", f"first arithmetic at line {first.lineno}",
+                 mod.line(first), fail_detail=f"`{unparse(first)[:60]}` runs on the caller's dtype (the float cast comes afterwards or not at all): for unsigned-integer data and a Python-int "
+                                              f"lower limit the subtraction wraps around below vmin — ManualInterval(10, 200) sends the uint8 value 5 to 1.0 instead of 0: not monotone")
     cn_cls = classes["CustomNormalization"]
     ccall = next(f for f in cn_cls.body if isinstance(f, ast.FunctionDef) and f.name == "__call__")
     body = [s for s in ccall.body if not (isinstance(s, ast.Expr) and isinstance(s.value, ast.Constant))]
